@@ -56,7 +56,12 @@ def gen_case(rng, pi_method=None, size="small", **kw):
     if rng.random() < 0.3:
         tf_lo, tf_hi = rng.choice([0.25, 0.5, 0.75]), rng.choice([1.5, 2.0, 3.0])
         params = dict(params, turnout_factor_lower=tf_lo, turnout_factor_upper=tf_hi)
+    history = None
+    if rng.random() < 0.2:
+        history = {"estimands": rng.choice([["margin"], ["turnout"], ["dem", "turnout"]]) if pi != "bootstrap" else ["margin"],
+                   "scale": rng.choice([0.3, 0.5, 0.8])}
     return {
+        "frame_history": history,
         "election": e, "pi_method": pi, "estimands": estimands, "alphas": alphas, "params": params,
         "features": features, "policy": rng.choice(["drop", "zero"]), "aggregates": aggregates or E.pick_aggregates(rng, e),
         "tf_lo": tf_lo, "tf_hi": tf_hi, "derived_feed": pi == "bootstrap" and rng.random() < 0.35,
@@ -85,7 +90,8 @@ def run_case(case, **kw):
     e = case["election"]
     return E.run_client(e, estimands=case["estimands"], alphas=case["alphas"], pi_method=case["pi_method"],
                         aggregates=case["aggregates"], params=case["params"], policy=case["policy"],
-                        features=case["features"], derived_feed=bool(case.get("derived_feed")), **kw)
+                        features=case["features"], derived_feed=bool(case.get("derived_feed")),
+                        frame_history=case.get("frame_history"), **kw)
 
 
 # ----------------------------------------------------------------------------------------------
@@ -125,7 +131,7 @@ def split_op(case):
     feed = []
     for r in e.cur.to_dict(orient="records"):
         res, rw = feed_values(case, r)
-        feed.append([irank[r["geographic_unit_fips"]], srank[r["postal_code"]], C.rat(r["percent_expected_vote"]),
+        feed.append([irank[r["geographic_unit_fips"]], srank[r["postal_code"]], None if _num(r["percent_expected_vote"]) is None else C.rat(r["percent_expected_vote"]),
                      [None if x is None else C.rat(x) for x in res], None if rw is None else C.rat(rw)])
     op = {
         "op": "units.split", "policy": case["policy"], "thr": C.rat(e.threshold), "tfLo": C.rat(case["tf_lo"]),
@@ -447,11 +453,18 @@ def check_unit_rows(run, case, tables, props, model_view=None):
         return
     L = light(case)
     ud = tables["unit_data"]
-    for est in case["estimands"]:
+    # counted votes as they arrived in the feed (first row of a unit id), not as the output table repeats them
+    counted = {}
+    for fr in case["election"].cur.to_dict(orient="records"):
+        counted.setdefault(fr["geographic_unit_fips"], feed_values(case, fr)[0])
+    for k, est in enumerate(case["estimands"]):
         for r in ud.to_dict(orient="records"):
             res = r.get(f"results_{est}")
             if res is None or (isinstance(res, float) and math.isnan(res)):
                 continue  # a feed row with a missing estimand: outside the property's quantifier
+            fv = counted.get(r["geographic_unit_fips"])
+            if fv is not None and fv[k] is not None:
+                res = fv[k]
             vals = [r.get(f"pred_{est}")] + [r.get(f"{b}_{a}_{est}") for a in case["alphas"] for b in ("lower", "upper")]
             final = not (r["unit_category"] == "expected" and int(r["reporting"]) == 0)
             u = r["geographic_unit_fips"]
